@@ -62,6 +62,20 @@ HostileOK(e) ==
   /\ PrefixMatches(e.res, ds.vals, 1)                           \* SoundOnValid
   /\ (ds.st = "complete" => Len(e.res) = Len(ds.vals) + 1 /\ e.res[Len(e.res)] = Eof)
 
+(* C06, inputs too large to log: n array headers "*1" nested in one another,  *)
+(* then a leaf (complete) or nothing (cut off).  Only outcome types are      *)
+(* logged.  A parser may bound the nesting it accepts (it recurses), but the *)
+(* bound may not be small: a complete value nested up to MinDepth deep is    *)
+(* returned as a value.                                                      *)
+MinDepth == 1000
+HostileBigOK(e) ==
+  /\ e.alive                                                    \* no stack overflow, no abort
+  /\ Len(e.res) >= 1
+  /\ \A k \in 1..Len(e.res) : e.res[k].t \in {"str", "err", "int", "bulk", "null", "arr", "eof", "error"}
+  /\ e.res[Len(e.res)].t \in {"eof", "error"}
+  /\ (e.gen = "nest" /\ e.complete /\ e.n <= MinDepth => Len(e.res) = 2 /\ e.res[1].t = "arr" /\ e.res[2].t = "eof")
+  /\ (e.gen = "nest" /\ ~e.complete => Len(e.res) = 1 /\ e.res[1].t = "error")   \* end of stream inside an array is an error
+
 (* C02: a stream of canonical encodings delivered in the logged chunks.      *)
 RECURSIVE Sum(_, _)
 Sum(c, k) == IF k > Len(c) THEN 0 ELSE c[k] + Sum(c, k + 1)
@@ -82,6 +96,7 @@ Check(e) == CASE e.ev = "rt"      -> RoundTripOK(e)
               [] e.ev = "chunked" -> ChunkedOK(e)
               [] e.ev = "float"   -> FloatOK(e)
               [] e.ev = "hostile" -> HostileOK(e)
+              [] e.ev = "hostilebig" -> HostileBigOK(e)
               [] OTHER            -> FALSE
 
 Init == l = 1
